@@ -53,21 +53,20 @@ class ExprInModel(ExprModel):
                     # TODO: must handle case where size is random
                     arr : FieldArrayModel = r.fm
                     
-                    if arr.is_rand_sz:
-                        pass
-                    else:
-                        for i in range(int(arr.size.get_val())):
-                            t = ExprBinModel(
-                                self.lhs, 
-                                BinExprType.Eq, 
-                                ExprFieldRefModel(arr.field_l[i]))
-                            if expr is None:
-                                expr = t
-                            else:
-                                expr = ExprBinModel(expr, BinExprType.Or, t)
-                        # Clear the temporary term, so the combination code
-                        # below doesn't use it.
-                        t = None
+                    # The size of a random-size array is solved before its
+                    # elements, so the current size is the final one here
+                    for i in range(int(arr.size.get_val())):
+                        t = ExprBinModel(
+                            self.lhs, 
+                            BinExprType.Eq, 
+                            ExprFieldRefModel(arr.field_l[i]))
+                        if expr is None:
+                            expr = t
+                        else:
+                            expr = ExprBinModel(expr, BinExprType.Or, t)
+                    # Clear the temporary term, so the combination code
+                    # below doesn't use it.
+                    t = None
                 else:
                     t = ExprBinModel(self.lhs, BinExprType.Eq, r)
             else:
